@@ -5,6 +5,19 @@ HERE = os.path.dirname(os.path.dirname(os.path.abspath(__file__)))
 ids = [json.loads(l)["id"] for l in open(os.path.join(HERE, "properties.jsonl"))]
 
 CLAIMS = {
+ "C20": dict(
+   text="Every step of the send path is proved to keep  wire ++ pending  (bytes accepted by the socket, then bytes queued "
+        "behind them) extended by exactly the bytes handed over, for arbitrary message bytes and every per-call socket outcome "
+        "(accepts l of n bytes, EAGAIN, fatal error, other exception): Connection.send (disconnected / queue-behind-pending / "
+        "direct write with remainder hand-off / fatal -> disconnect once, nothing queued), DeferredSender._sliceup, send, kill "
+        "and one full select round of DeferredSender.run (partial writes, chunk advance, EAGAIN, fatal error drops the entry, "
+        "disconnects once, writes nothing afterwards; the busy flag is cleared only when nothing is pending - the invariant the "
+        "direct write relies on), and on the switch side IOWorker.send / _do_send / _consume_send_buf, RecocoIOWorker.send, "
+        "send_fast (repaired) and close (reported exactly once).",
+   note="socket / select behaviour is an assumed callee contract; chunk lists of 1..2 chunks and one select round are bounded "
+        "(reported so); the history statement is the induction over the steps; thread interleaving is serialised by the "
+        "sender's lock and not modelled.",
+   ref="7/C20"),
  "C17": dict(
    text="Statistics reassembly (Connection._incoming_stats_reply) is proved as one step over stored parts of ANY number "
         "(symbolic list + representation invariant re-established by every step): a continuing part is appended in order, a "
